@@ -34,7 +34,7 @@ KIND_OF_ADD = {v: k for k, v in ADD.items()}
 BASES = ["traceback", "Failed expectation", "reason", "log", "x", "fxd"]     # base strings of detail names
 FLAVOURS = ["F26", "F27", "FExtended", "FTwisted", "FTestResult", "FStream", "FNone"]
 # what a cell holding value v yields: chunks of bytes (empty, multi-chunk, not UTF-8, ...)
-CHUNKS = {0: [], 1: [b"ab", b"", b"cd"], 2: [b"\xff\xfe\x00"], 3: [b"three"], 4: [b""], 5: [b"five", b"5"]}
+CHUNKS = {0: [], 1: [b"ab", b"", b"cd"], 2: [b"\xff\xfe\x00"], 3: [b"three"], 4: [b"", b"4", b""], 5: [b"five", b"5"]}
 VALUE_OF = {b"".join(c): v for v, c in sorted(CHUNKS.items(), reverse=True)}   # b"" -> 0
 
 
